@@ -199,6 +199,53 @@ def context_bombs():
     return out
 
 
+def run_tools(ctx, items, q):
+    """The shipped listers are NAL walkers too: run the built binaries on Annex B streams (the stream inputs and the
+    context sequences converted to start-code form); a Go panic (exit 2 with a goroutine dump) or a hang is a violation."""
+    import re
+    import subprocess
+    nallister = ctx.build_repo_binary("./cmd/mp4ff-nallister", "mp4ff-nallister")
+    pslister = ctx.build_repo_binary("./cmd/mp4ff-pslister", "mp4ff-pslister")
+    streams = []
+    for ident, kind, b in items:
+        if kind == "stream":
+            streams.append((ident, b))
+        elif kind in ("ctx-avc", "ctx-hevc", "sample"):
+            out, pos = b"", 0
+            while pos + 4 <= len(b):
+                n = int.from_bytes(b[pos:pos + 4], "big")
+                if pos + 4 + n > len(b):
+                    break
+                out += b"\x00\x00\x00\x01" + b[pos + 4:pos + 4 + n]
+                pos += 4 + n
+            if out:
+                streams.append((ident, out))
+    step = max(1, len(streams) // (400 if q else 4000))
+    streams = [s for i, s in enumerate(streams) if i % step == ctx.seed % step]
+    runs = 0
+    path = os.path.join(ctx.scratch, "tool_in.bin")
+    for ident, b in streams:
+        with open(path, "wb") as f:
+            f.write(b)
+        for name, cmd in (("nallister-avc", [nallister, "-annexb", "-c", "avc", "-sei", "2", "-ps", path]),
+                          ("nallister-hevc", [nallister, "-annexb", "-c", "hevc", "-sei", "2", "-ps", path]),
+                          ("pslister-avc", [pslister, "-c", "avc", "-v", "-i", path]),
+                          ("pslister-hevc", [pslister, "-c", "hevc", "-v", "-i", path])):
+            runs += 1
+            try:
+                p = subprocess.run(cmd, capture_output=True, text=True, timeout=10, errors="replace")
+            except subprocess.TimeoutExpired:
+                ctx.report("tool-hang/" + name, "%s does not return within 10 s on an Annex B stream" % name, {"id": ident, "hex": b.hex()[:400]})
+                continue
+            if p.returncode == 2 and "goroutine " in p.stderr and "panic" in p.stderr:
+                m = re.search(r"\n(main\.[A-Za-z0-9_.()*]+|github.com/Eyevinn/mp4ff/[\w/.()*]+)\(", p.stderr)
+                where = m.group(1) if m else "?"
+                ctx.report("tool-panic/%s/%s" % (name, where), "%s panics: %s" % (name, p.stderr.splitlines()[0][:200]), {"id": ident, "hex": b.hex()[:400]})
+    if runs < 200:
+        raise core.Machinery("only %d tool runs" % runs)
+    return {"inputs": len(streams), "runs": runs}
+
+
 def run(ctx):
     q = ctx.tier == "quick"
     t = "quick" if q else "thorough"
@@ -275,6 +322,7 @@ def run(ctx):
         hvcc += bytes([0x80 | ty, 0, 1]) + len(n).to_bytes(2, "big") + n
     items += rc.mutate(hvcc, "config", "H5/hvcC", dense=200, first=60)
     items += rc.mutate(bytes.fromhex("81000c000a0b0000000442abbfc3714a"), "config", "H5/av1C", dense=64, first=16)
+    tool_stats = run_tools(ctx, items, q)
     trace, fatals = rc.monitor_sharded(ctx, "c16", items, shards=8)
     ctx.cov["evaluations"] = len(items)
     ctx.cov["distinct_nontrivial"] = len(set(b for _, _, b in items))
@@ -289,6 +337,7 @@ def run(ctx):
                          "H5": "ASC, ADTS, avcC, hvcC, av1C: every prefix, head substitutions",
                          "H6": "NAL unit sequences with their own context (SPS, PPS, then slice header / SEI parsed against them): count and range bombs placed in the parameter sets "
                                "(reference index counts, slice group change rate, HRD cpb counts, sub-picture HRD flags) and the (sps, pps, slice) triples of AvcSyntax.tla / HevcSyntax.tla with mutations",
+                         "tools": "the built mp4ff-nallister (-annexb, avc / hevc, -sei 2 -ps) and mp4ff-pslister on %d Annex B streams: %d runs, exit by panic or no return within 10 s is a violation" % (tool_stats["inputs"], tool_stats["runs"]),
                          "budgets": "2 s + 20 us/byte wall, 16 MiB + 1024 x length allocated, worker under ulimit -v 8 GB", "fatal_worker_crashes": fatals}
     ctx.cov["rule"] = ("inputs = Robust.tla H1 grammar (exhaustive) + mutation operators applied to behaviours exported by the syntax specs; "
                        "each input is run through every entry point of its family in an isolated process under recover(); "
